@@ -72,7 +72,7 @@ def well_nested(seq, state):
 
 def check_tree(ctx):
     install_exc(ctx.eng)
-    b0 = ctx.sandbox_base(32, "b0")
+    b0 = ctx.sandbox_base(32, "b0", aligned=False)
     shape = ctx.sym("shape", 32)
     x = ctx.sym("x", 64)
     ctx.assume(z3.ULE(shape, 3))
@@ -122,7 +122,7 @@ def check_tree(ctx):
 def check_single_hook(ctx, which):
     """only one of the two hooks is defined: every crossing must still produce exactly one notification of that kind"""
     install_exc(ctx.eng)
-    b0 = ctx.sandbox_base(32, "b0")
+    b0 = ctx.sandbox_base(32, "b0", aligned=False)
     shape = ctx.sym("shape", 32)
     x = ctx.sym("x", 64)
     ctx.assume(z3.ULE(shape, 3))
